@@ -13,7 +13,7 @@ import (
 func newHistScenario() any { return &histScenario{} }
 
 func defaultGenOpts(tier string) genOpts {
-	o := genOpts{MaxTargets: 6, MaxMods: 3, BigValues: true, Flags: true, Always: true, GenSources: true, Recursion: true}
+	o := genOpts{MaxTargets: 6, MaxMods: 3, BigValues: true, Flags: true, Always: true, GenSources: true, Recursion: true, Exts: 25}
 	if tier == "thorough" {
 		o.MaxTargets = 10
 		o.MaxMods = 4
